@@ -678,6 +678,12 @@ func (en *env) findPackage(name string) *types.Package {
 
 // fieldAccess returns either the address of the field (through a pointer) or its value.
 func (en *env) fieldAccess(v *ESelector) (string, types.Type, bool) {
+	// a field of a struct that is itself stored in memory (x.a.b, x[i].f): address arithmetic
+	if addr, bt, ok := en.tryAddrOf(v.X); ok {
+		if _, isStruct := bt.Underlying().(*types.Struct); isStruct {
+			return en.fieldOfAddr(addr, bt, v.Name)
+		}
+	}
 	x := en.eval(v.X)
 	t := x.typ
 	isPtr := false
@@ -728,6 +734,71 @@ func (en *env) fieldAccess(v *ESelector) (string, types.Type, bool) {
 		cur = s.Field(k).Type()
 	}
 	return term, fv.Type(), false
+}
+
+// tryAddrOf: the address of an lvalue expression, if it is one (selector chains through
+// pointers, element accesses, dereferences); never fails.
+func (en *env) tryAddrOf(x Expr) (addr string, t types.Type, ok bool) {
+	switch x.(type) {
+	case *ESelector, *EIndex, *EUnary:
+	default:
+		return "", nil, false
+	}
+	defer func() {
+		if r := recover(); r != nil {
+			if _, isU := r.(unsupported); isU {
+				ok = false
+				return
+			}
+			panic(r)
+		}
+	}()
+	if sel, isSel := x.(*ESelector); isSel {
+		if id, isId := sel.X.(*EIdent); isId {
+			if _, isVar := en.names[id.Name]; !isVar && en.findPackage(id.Name) != nil {
+				if _, shadow := en.fvAddrs[id.Name]; !shadow {
+					return "", nil, false // package-qualified name
+				}
+			}
+		}
+		a, ft, isAddr := en.fieldAccess(sel)
+		if !isAddr {
+			return "", nil, false
+		}
+		return a, ft, true
+	}
+	a, at := en.addrOf(x)
+	return a, at, true
+}
+
+func (en *env) fieldOfAddr(addr string, t types.Type, name string) (string, types.Type, bool) {
+	st := t.Underlying().(*types.Struct)
+	obj, path, _ := types.LookupFieldOrMethod(t, true, en.pkgOf(t), name)
+	if obj == nil {
+		for i := 0; i < st.NumFields(); i++ {
+			if st.Field(i).Name() == name {
+				path = []int{i}
+				obj = st.Field(i)
+			}
+		}
+	}
+	fv, ok := obj.(*types.Var)
+	if !ok || len(path) == 0 {
+		en.fail("no field %s in %s", name, t)
+	}
+	cur := t
+	for _, k := range path {
+		s := cur.Underlying().(*types.Struct)
+		ft := s.Field(k).Type()
+		addr = fldAddr(addr, k)
+		if p, ok := ft.Underlying().(*types.Pointer); ok && k != path[len(path)-1] {
+			addr = en.e.loadValue(en.st, addr, ft)
+			cur = p.Elem()
+		} else {
+			cur = ft
+		}
+	}
+	return addr, fv.Type(), true
 }
 
 func (en *env) pkgOf(t types.Type) *types.Package {
